@@ -36,7 +36,7 @@ Definition push_sel (t : txn) (pc old_parent new_parent : oid) (already_merged :
       | Some c => if tree_eqb c ours then t else set_tmp t (Some ours) ours
       | None => set_tmp t (Some ours) ours
       end in
-    match apply3way otree (t_tmp_content t1) theirs with
+    match apply3way (t_wt t1) otree (t_tmp_content t1) theirs with
     | Some merged => inl (set_tmp t1 (Some merged) merged, merged, PSNormal)
     | None =>
         let t1 := set_tmp t1 None (t_tmp_content t1) in
@@ -116,7 +116,7 @@ Proof.
              | None => set_tmp t (Some ours) ours end).
   assert (H1 : core_eq t t1).
   { unfold t1. destruct (t_tmp_id t) as [c|]; [destruct (tree_eqb c ours)|]; repeat split. }
-  destruct (apply3way _ _ _) as [merged|].
+  destruct (apply3way _ _ _ _) as [merged|].
   { split; [|discriminate]. eapply core_eq_trans; [exact H1|]. repeat split. }
   set (t1' := set_tmp t1 None (t_tmp_content t1)).
   assert (H1' : core_eq t t1').
